@@ -283,7 +283,13 @@ func Load(ctx context.Context, wd string, env []string, tags string, patterns []
 				ec.add(notePositionAll(fset.Position(obj.Pos()), errs)...)
 				continue
 			}
-			pset := item.(*ProviderSet)
+			pset, ok := item.(*ProviderSet)
+			if !ok {
+				// A variable of type wire.ProviderSet that is not built by
+				// wire.NewSet (for example a composite literal).
+				ec.add(notePosition(fset.Position(obj.Pos()), fmt.Errorf("%s is not a provider set built with wire.NewSet", name)))
+				continue
+			}
 			// pset.Name may not equal name, since it could be an alias to
 			// another provider set; that set may be declared in another package,
 			// so the ID takes the path of the package declaring this variable.
